@@ -135,7 +135,7 @@ def gen(stratum, rng, tier):
         if rng.random() < 0.3:
             ints = list(range(n))
     elif stratum == "binary-explicit":
-        n = rng.randint(2, 5)
+        n = rng.randint(2, 7)
         c, A, b = _base(rng, n, rng.randint(1, 3), coefs=(1, 2, 3, 4, 5, 0), rhs=(2, 3, 4, 5, 6, 7))
         ints = list(range(n)) if rng.random() < 0.7 else sorted(rng.sample(range(n), rng.randint(1, n)))
         _bound_rows(rng, n, A, b, binary=True)
@@ -200,20 +200,27 @@ def gen(stratum, rng, tier):
                     break
         configs += [{"heuristics": False}, {"lns_iterations": 2, "seed": 1}]
     elif stratum == "warm":
+        if rng.random() < 0.5 and n >= 2:
+            ints = sorted(rng.sample(range(n), rng.randint(1, n - 1)))  # mixed: at least one continuous variable
         _bound_rows(rng, n, A, b, binary=rng.random() < 0.5)
         ws = []
         for _ in range(3):
             kind = rng.random()
             if kind < 0.25:
                 w = [rng.randint(0, 2) for _ in range(n + rng.choice([-1, 1]))]  # wrong length
-            elif kind < 0.5:
+            elif kind < 0.4:
                 w = [rng.choice([0, 1, 5, 7, 0.5]) for _ in range(n)]  # likely infeasible / fractional
+            elif kind < 0.55:
+                # row-feasible-looking but with a negative entry (x >= 0 must be checked for every variable,
+                # continuous ones included)
+                w = [rng.randint(0, 2) for _ in range(n)]
+                w[rng.randrange(n)] = rng.choice([-1, -2, -0.5, -1.5])
             else:
                 w = [rng.randint(0, 1) for _ in range(n)]
             ws.append(w)
         configs = [{}] + [{"warm_start": w} for w in ws] + [{"warm_start": ws[0], "heuristics": False}]
     elif stratum == "lns":
-        n = rng.randint(2, 5)
+        n = rng.randint(2, 7)
         c, A, b = _base(rng, n, rng.randint(1, 3), coefs=(1, 2, 3, 4, 0), rhs=(2, 3, 4, 5, 6))
         ints = list(range(n))
         _bound_rows(rng, n, A, b, binary=True)
@@ -291,6 +298,21 @@ def _oracle(case):
     c, A, b, ints = case["c"], case["A"], case["b"], case["ints"]
     n, m = len(c), len(b)
     if not olp.within_bounds(m, n):
+        # too many vertices for the exact LP: a pure integer program whose variables all carry an explicit
+        # single-variable bound row can still be enumerated directly (relaxation verdicts are then not judged)
+        if len(set(ints)) == n:
+            box = {}
+            for row, rhs in zip(A, b):
+                nz = [j for j in range(n) if row[j] != 0]
+                if len(nz) == 1 and row[nz[0]] > 0 and rhs >= 0:
+                    j = nz[0]
+                    u = int(rhs // row[j])
+                    box[j] = (0, min(u, box.get(j, (0, u))[1]))
+            size = 1
+            for lo, hi in box.values():
+                size *= hi - lo + 1
+            if len(box) == n and size <= 5000:
+                return {"relax": None, "milp": olp.milp_exact(c, A, b, ints, case["minimize"], box)}
         return None
     Af = [[F(v) for v in r] for r in A]
     bf = [F(v) for v in b]
@@ -355,6 +377,9 @@ def run(case, obs):
         obs.nontrivial = True
     if mo and mo[0] == "infeasible":
         obs.nontrivial = True
+    if orc and orc.get("relax") is None and mo is not None:
+        obs.nontrivial = True  # 6-7 binary variables with knapsack rows: the relaxation is fractional in practice
+        obs.mode("exact-enumeration-only")
     for cfg in case["configs"]:
         _lpmon.drain()
         _l2["bad"].clear()
